@@ -29,6 +29,13 @@ type FuncReport struct {
 	ExitPC      *smt.Term // path condition of normal return: must be satisfiable
 	Trusted     bool
 	Path        string // branch decisions of this report (path-split functions)
+	Cases       []CaseBits
+}
+
+// CaseBits: hard obligations may be proved by enumerating the masked bits of Term (an input byte).
+type CaseBits struct {
+	Term *smt.Term
+	Mask uint64
 }
 
 type ParamInfo struct {
@@ -47,17 +54,17 @@ func (e *Engine) Verify(fc *FnContract) []*FuncReport {
 		return []*FuncReport{e.verifyOnce(fc, "")}
 	}
 	type item struct {
-		forced map[*ssa.If]bool
+		forced map[string]bool
 		label  string
 	}
-	work := []item{{map[*ssa.If]bool{}, ""}}
+	work := []item{{map[string]bool{}, ""}}
 	var out []*FuncReport
 	for len(work) > 0 {
 		it := work[len(work)-1]
 		work = work[:len(work)-1]
 		e.forced = it.forced
 		e.undecided = nil
-		e.undecidedSeen = map[*ssa.If]bool{}
+		e.undecidedSeen = map[string]bool{}
 		rep := e.verifyOnce(fc, it.label)
 		if rep.Err != "" {
 			e.forced = nil
@@ -74,7 +81,7 @@ func (e *Engine) Verify(fc *FnContract) []*FuncReport {
 		}
 		u := e.undecided[0]
 		for _, side := range []bool{false, true} {
-			m := map[*ssa.If]bool{}
+			m := map[string]bool{}
 			for k, v := range it.forced {
 				m[k] = v
 			}
@@ -83,7 +90,8 @@ func (e *Engine) Verify(fc *FnContract) []*FuncReport {
 			if side {
 				l = "T"
 			}
-			work = append(work, item{m, fmt.Sprintf("%s.b%d%s", it.label, u.Block().Index, l)})
+			short := strings.NewReplacer("/", "", ":", "", "#", "").Replace(u)
+			work = append(work, item{m, fmt.Sprintf("%s.%s%s", it.label, short, l)})
 		}
 	}
 	e.forced = nil
@@ -92,6 +100,7 @@ func (e *Engine) Verify(fc *FnContract) []*FuncReport {
 
 func (e *Engine) verifyOnce(fc *FnContract, path string) (rep *FuncReport) {
 	e.reset()
+	e.callCtx = ""
 	rep = &FuncReport{Name: e.nameOf(fc.Fn), QName: fc.C.QName(), Props: fc.C.Props, Trusted: fc.C.Trusted, Path: path}
 	defer func() {
 		if r := recover(); r != nil {
@@ -115,6 +124,7 @@ func (e *Engine) verifyOnce(fc *FnContract, path string) (rep *FuncReport) {
 	e.verifying = fn
 	st := &State{Heaps: map[string]*smt.Term{}, Cells: map[*Cell]Val{}}
 	e.alloc0 = X.Var("alloc0", RefSort)
+	X.FreshBase[e.alloc0.ID()] = true
 	st.Alloc = e.alloc0
 	e.pc = X.True
 	e.assume(X.Ule(X.Const(0x100000, 32), e.alloc0))
@@ -128,6 +138,7 @@ func (e *Engine) verifyOnce(fc *FnContract, path string) (rep *FuncReport) {
 			name = cps[i].Name
 		}
 		v := e.freshVal("in_"+name, p.Type())
+		e.markOld(v)
 		e.assumeWellTyped(st, v)
 		e.assumeParamShape(v)
 		args = append(args, v)
@@ -140,6 +151,12 @@ func (e *Engine) verifyOnce(fc *FnContract, path string) (rep *FuncReport) {
 		e.assume(v.C[0])
 	}
 	rep.CoverPC = X.True
+	for _, cs := range fc.C.Cases {
+		v, _ := e.evalSpec(fn.Pkg, cs.Fn, args, st)
+		if len(v.C) == 1 && v.C[0].S.Kind == smt.KBV && !v.C[0].IsConst() {
+			rep.Cases = append(rep.Cases, CaseBits{v.C[0], cs.Mask})
+		}
+	}
 	// old-expressions
 	olds := map[string]Val{}
 	for _, cl := range fc.C.Ensures {
@@ -277,4 +294,19 @@ func (e *Engine) rangeNext(f *frame, x *ssa.Next) Val   { bail("range next"); re
 func (e *Engine) concreteTypes() []types.Type           { return nil }
 func (e *Engine) stdModel(f *frame, fn *ssa.Function, args []Val, pos token.Pos) (Val, bool) {
 	return Val{}, false
+}
+
+// markOld records that the references of an input value predate every allocation of the call.
+func (e *Engine) markOld(v Val) {
+	if v.Tup != nil {
+		for _, t := range v.Tup {
+			e.markOld(t)
+		}
+		return
+	}
+	for i, c := range comps(v.T) {
+		if c.Sort == RefSort && (strings.HasSuffix(c.Suffix, ".r") || strings.HasSuffix(c.Suffix, ".p")) {
+			e.X.OldRef[v.C[i].ID()] = true
+		}
+	}
 }
